@@ -756,9 +756,9 @@ func (gs *GossipSubRouter) OnClosedIncomingStream(pid peer.ID, proto protocol.ID
 	if gs.gate != nil {
 		gs.gate.OnClosedIncomingStream(pid, proto)
 	}
-	if gs.feature(GossipSubFeatureExtensions, proto) {
-		gs.extensions.OnClosedIncomingStream(pid, proto)
-	}
+	// extensions.HandleRPC records every peer that sends us an RPC, whatever
+	// protocol its stream negotiated, so always clean up.
+	gs.extensions.OnClosedIncomingStream(pid, proto)
 	// A peer we never had an outbound stream to can still have GRAFTed itself
 	// into a mesh; OnClosedOutboundStream will never run for it.
 	if _, ok := gs.peers[pid]; !ok {
